@@ -92,6 +92,9 @@ pub struct Ctx {
     deadline: std::time::Instant,
     sample_slots: usize,
     pub max_sigs: usize,
+    /// where partial reports are written (so that a worker killed by a crash or hang in the subject keeps its counters)
+    pub snapshot_path: Option<String>,
+    last_snap: std::time::Instant,
 }
 
 impl Ctx {
@@ -110,6 +113,8 @@ impl Ctx {
             deadline: std::time::Instant::now() + std::time::Duration::from_secs(budget_s),
             sample_slots: 6,
             max_sigs: 400,
+            snapshot_path: None,
+            last_snap: std::time::Instant::now(),
         }
     }
     /// Static slicing: call once per unit of work at the chosen loop level;
@@ -137,6 +142,9 @@ impl Ctx {
     /// 97th execution is repeated and must give the identical observation.
     pub fn run(&mut self, case: &Case) -> Obs {
         self.rep.evaluations += 1;
+        if self.rep.evaluations % 512 == 0 && self.last_snap.elapsed().as_secs() >= 2 {
+            self.snapshot();
+        }
         let o = drive::run(case);
         if self.rep.evaluations % 97 == 0 {
             let o2 = drive::run(case);
@@ -247,6 +255,20 @@ impl Ctx {
     }
     pub fn note(&mut self, k: &str, v: String) {
         self.rep.notes.insert(k.to_string(), v);
+    }
+    pub fn snapshot(&mut self) {
+        self.last_snap = std::time::Instant::now();
+        if let Some(p) = &self.snapshot_path {
+            let mut r = self.rep.clone();
+            r.states = self.states.iter().copied().collect();
+            r.transitions = self.transitions.iter().copied().collect();
+            r.violations = self.vio.values().cloned().collect();
+            r.capped = Some("worker died inside the subject; partial report".into());
+            let tmp = format!("{p}.tmp");
+            if std::fs::write(&tmp, serde_json::to_vec(&r).unwrap_or_default()).is_ok() {
+                let _ = std::fs::rename(&tmp, p);
+            }
+        }
     }
     pub fn finish(mut self) -> Report {
         self.rep.states = self.states.into_iter().collect();
